@@ -40,45 +40,138 @@ def build() -> Check:
     locals_ = {t.id for st in ast.walk(idf.node) if isinstance(st, (ast.Assign, ast.AnnAssign))
                for t in ([st.target] if isinstance(st, ast.AnnAssign) else st.targets) if isinstance(t, ast.Name)}
     foreign = names - {"self", param, "hashlib", "str", "int", "bytes"} - locals_
-    ck.ob("R1.id-function-pure", fn_construct(idf), not (foreign & IMPURE) and not foreign and self_attrs <= {"_parent_id"},
-          f"the id function reads names {sorted(foreign)} and self attributes {sorted(self_attrs)} (allowed: its argument, self._parent_id, hashlib)")
-    calls = {ast.unparse(c.func) for c in ast.walk(idf.node) if isinstance(c, ast.Call)}
-    ck.ob("R1.id-function-calls", fn_construct(idf), all(c.startswith("hashlib.") or c in ("str",) or c.endswith((".encode", ".hexdigest", ".digest")) for c in calls),
-          f"calls made by the id function: {sorted(calls)}")
-    hashed = [c for c in ast.walk(idf.node) if isinstance(c, ast.Call) and isinstance(c.func, ast.Attribute)
-              and isinstance(c.func.value, ast.Name) and c.func.value.id == "hashlib" and c.args]
+    # attributes of the context that are bound once, in __init__, are part of the context's identity; anything assigned elsewhere is mutable state
+    mutable_attrs = {t.attr for mname, m in ctx.methods.items() if mname != "__init__" for st in ast.walk(m.node)
+                     if isinstance(st, (ast.Assign, ast.AnnAssign, ast.AugAssign)) for t in ([st.target] if not isinstance(st, ast.Assign) else st.targets)
+                     if isinstance(t, ast.Attribute) and isinstance(t.value, ast.Name) and t.value.id == "self"}
+    stores = sorted({ast.unparse(t) for st in ast.walk(idf.node) if isinstance(st, (ast.Assign, ast.AnnAssign, ast.AugAssign))
+                     for t in ([st.target] if not isinstance(st, ast.Assign) else st.targets) if not isinstance(t, ast.Name)})
+    ck.ob("R1.id-function-pure", fn_construct(idf), not foreign and not (self_attrs & mutable_attrs) and not stores,
+          f"the id function reads names {sorted(foreign)}, mutable context attributes {sorted(self_attrs & mutable_attrs)} and writes {stores}: ids must be a function of "
+          "(parent id, position) alone - branch threads derive ids from one shared context concurrently")
+    # R1 value flow: the id is the digest of <parent id><separator><position> (or of the position alone at the root), decided by
+    # interpreting the id function with a small abstract domain for text and hash objects (f-strings, str(), +, encode, update, copy)
+    from sa.values import NONE, Const, Obj, SeqVal, Sym, TypeRef, Unknown
 
-    def both_separated(e) -> bool:
-        if not isinstance(e, ast.JoinedStr):
-            return False
-        kinds = []
-        for v in e.values:
-            if isinstance(v, ast.FormattedValue):
-                t = ast.unparse(v.value)
-                kinds.append("P" if t == "self._parent_id" else "S" if t == param else "?")
-            elif isinstance(v, ast.Constant) and v.value:
-                kinds.append("-")
-        txt_ = "".join(kinds)
-        return "P-S" in txt_ or "S-P" in txt_
+    from sa.interp import SpecialObj
 
-    ok_inputs = False
-    detail = "no hashlib call"
-    if hashed:
-        src = hashed[0].args[0]
-        expr = src
-        names_in_src = {n.id for n in ast.walk(src) if isinstance(n, ast.Name)}
-        for st in ast.walk(idf.node):
-            if isinstance(st, (ast.Assign, ast.AnnAssign)) and st.value is not None:
-                tg = st.target if isinstance(st, ast.AnnAssign) else st.targets[0]
-                if isinstance(tg, ast.Name) and tg.id in names_in_src:
-                    expr = st.value
-        detail = f"hashed text: {ast.unparse(expr)}"
-        if isinstance(expr, ast.IfExp):
-            ok_inputs = both_separated(expr.body) and "self._parent_id" in ast.unparse(expr.test) \
-                and param in {n.id for n in ast.walk(expr.orelse) if isinstance(n, ast.Name)}
-        else:
-            ok_inputs = both_separated(expr)
-    ck.ob("R1.both-inputs-hashed", fn_construct(idf), ok_inputs, detail + " (parent id and position must both reach the hash, separated)")
+    def make_hash(it, alg, data):
+        data = list(data)
+        methods = {
+            "update": lambda it_, a, k, n: (data.extend(a[:1]), NONE)[1],
+            "copy": lambda it_, a, k, n: make_hash(it_, alg, data),
+            "hexdigest": lambda it_, a, k, n: Sym(it_.fresh("digest"), TypeRef(prim="str"), parts=("DIGEST", alg, tuple(data))),
+            "digest": lambda it_, a, k, n: Sym(it_.fresh("digest"), TypeRef(prim="bytes"), parts=("DIGEST", alg, tuple(data))),
+        }
+        return SpecialObj(it.fresh(f"hash:{alg}"), methods)
+
+    def h_new_hash(alg):
+        return lambda it, a, k, n: make_hash(it, alg, a[:1])
+
+    def h_encode(it, recv, a, k, n):
+        if isinstance(recv, (Sym, Const)):
+            return Sym(f"{recv.key()}.encode()", TypeRef(prim="bytes"), parts=("ENCODE", recv))
+        return NotImplemented
+
+    def atoms(v):
+        """flatten an abstract text into atoms 'P' (parent id), 'S' (position), ('lit', text); None if something else flows in"""
+        if isinstance(v, Const) and isinstance(v.value, (str, bytes)):
+            return [("lit", v.value if isinstance(v.value, str) else v.value.decode("latin1"))] if v.value else []
+        if isinstance(v, Sym):
+            if v.k == "P":
+                return ["P"]
+            if v.k == "S":
+                return ["S"]
+            if v.parts and v.parts[0] in ("ENCODE", "STR"):
+                return atoms(v.parts[1])
+            if v.parts and v.parts[0] == "CONCAT":
+                out = []
+                for seg in v.parts[1]:
+                    a_ = atoms(seg)
+                    if a_ is None:
+                        return None
+                    out.extend(a_)
+                return out
+            if v.parts and v.parts[0] == "BINOP" and v.parts[1] == "Add":
+                l_, r_ = atoms(v.parts[2]), atoms(v.parts[3])
+                return None if l_ is None or r_ is None else l_ + r_
+        return None
+
+    def digest_of(v):
+        while isinstance(v, Sym) and v.parts and v.parts[0] == "SUBSCRIPT":
+            v = v.parts[1]
+        if isinstance(v, Sym) and v.parts and v.parts[0] == "DIGEST":
+            return v.parts
+        return None
+
+    algs = {f"hashlib.{a_}": h_new_hash(a_) for a_ in ("blake2b", "blake2s", "sha256", "sha1", "sha512", "md5", "sha3_256")}
+    badv = []
+    shapes = {}
+    for label, parent in (("nested", Sym("P", TypeRef(prim="str"))), ("root", NONE)):
+        def sf(it, state, parent=parent):
+            # the context is built by its own __init__ (so whatever __init__ precomputes from the parent id is there); the argument that
+            # ends up in self._parent_id is the parameter the id function's `self._parent_id` is assigned from
+            init = ctx.methods["__init__"]
+            pid_param = next((ast.unparse(st.value) for st in ast.walk(init.node) if isinstance(st, (ast.Assign, ast.AnnAssign)) and st.value is not None
+                              and any(isinstance(t_, ast.Attribute) and t_.attr == "_parent_id" for t_ in ([st.target] if isinstance(st, ast.AnnAssign) else st.targets))), "parent_id")
+            from sa.values import parse_annotation
+            kwargs = {}
+            for p_ in init.node.args.args[1:]:
+                kwargs[p_.arg] = parent if p_.arg == pid_param else (state if p_.arg == "state" else Sym(f"init.{p_.arg}", parse_annotation(prog, init.module, p_.annotation)))
+            o = Obj(ctx, label="ctx")
+            it.nofork += 1
+            try:
+                it.call_function(init, o, [], kwargs, None, None, None)
+            except Exception:  # noqa: BLE001 - fall back to a partially built context
+                o = Obj(ctx, label="ctx")
+            finally:
+                it.nofork -= 1
+            o.fields["_parent_id"] = parent
+            return o
+
+        trs = pm.run_function(idf, sf, lambda it, state: {param: Sym("S", TypeRef(prim="int"))}, cell=("id-function", label),
+                              ext_calls=algs, ext_method_hooks={"encode": h_encode},
+                              cfg_attrs={"structured_fstrings": True})
+        for t in trs:
+            if label == "nested" and dict(t.pc).get("truthy(P)") is False:
+                continue  # an empty-string parent id is not produced by the SDK (ids are digests)
+            d = digest_of(t.value) if t.outcome == "return" else None
+            if d is None:
+                badv.append(f"{label}: the id is {t.value.key() if t.outcome == 'return' else t.exc_class()}, not the digest of a hash object")
+                continue
+            parts_ = []
+            for x in d[2]:
+                a_ = atoms(x)
+                if a_ is None:
+                    parts_ = None
+                    break
+                parts_.extend(a_)
+            shapes[label] = (d[1], parts_)
+            if parts_ is None:
+                badv.append(f"{label}: something other than the parent id / the position / constants is hashed ({[x.key() for x in d[2]]})")
+            elif label == "root":
+                if parts_ != ["S"]:
+                    badv.append(f"root context: hashed text is {parts_}, expected the position alone")
+            else:
+                lits = [x for x in parts_ if isinstance(x, tuple)]
+                core = [x for x in parts_ if not isinstance(x, tuple)]
+                sep_ok = False
+                if core in (["P", "S"], ["S", "P"]):
+                    i0, i1 = parts_.index(core[0]), parts_.index(core[1])
+                    between = "".join(x[1] for x in parts_[i0 + 1:i1] if isinstance(x, tuple))
+                    sep_ok = bool(between) and not any(ch.isdigit() or ch in "abcdef" for ch in between.lower())
+                if core not in (["P", "S"], ["S", "P"]):
+                    badv.append(f"nested context: hashed text is {parts_}: parent id and position must both reach the hash exactly once")
+                elif not sep_ok:
+                    badv.append(f"nested context: hashed text is {parts_}: no separator that cannot occur in an id or a number sits between parent id and position "
+                                "(('1', 23) and ('12', 3) would collide)")
+    ck.analysed["id_shapes"] = {k: [v[0], [x if isinstance(x, str) else f"'{x[1]}'" for x in (v[1] or [])]] for k, v in shapes.items()}
+    if not shapes:
+        raise AnalysisError("id function not understood: " + "; ".join(badv[:3]))
+    ck.floor("id_shapes", len(shapes), 2)
+    ck.ob("R1.both-inputs-hashed", fn_construct(idf), not badv, "; ".join(badv[:2]) or str(ck.analysed["id_shapes"]))
+    if len({v[0] for v in shapes.values()}) > 1:
+        ck.ob("R1.both-inputs-hashed", fn_construct(idf), False, f"root and nested ids use different hash functions {sorted({v[0] for v in shapes.values()})}", cell="alg")
 
     # R2 counter discipline ---------------------------------------------------------------------------
     n_uses = 0
@@ -150,6 +243,15 @@ def build() -> Check:
     ck.ob("R3.child-context-fresh-counter", fn_construct(ccc) if ccc else "context.py:DurableContext.create_child_context",
           ccc is not None and "_step_counter" not in ast.unparse(ccc.node) and "DurableContext(" in ast.unparse(ccc.node),
           "create_child_context must build a new DurableContext (which creates its own counter) and not pass a counter along")
+
+    # every run of a body gets a context created for that run (a reused context continues its counter: the same logical operation
+    # would draw a different id on the timer re-submission / next run of the branch)
+    from sa.common import child_context_escapes
+    sites_cc, esc = child_context_escapes(prog)
+    ck.floor("child_context_creation_sites", len(sites_cc), 4)
+    for fi_, c_ in sites_cc:
+        mine = [why for f2, n2, why in esc if f2 is fi_]
+        ck.ob("R3.fresh-context-per-body-run", fn_construct(fi_), not mine, "; ".join(mine), where=f"line {c_.lineno}")
 
     # R4 branch ids -------------------------------------------------------------------------------------
     cex = prog.cls("concurrency.executor", "ConcurrentExecutor")
